@@ -1,7 +1,8 @@
 (* C20 - optim_flat: stopping rule, restored optimum, history shape, fresh mini-batches. *)
+From Coq Require Import String.
 From Coq Require Import List ZArith QArith Bool Arith Permutation.
-From Coq Require String.
 Import ListNotations.
+Close Scope string_scope.
 Close Scope Q_scope.
 Open Scope nat_scope.
 From LV Require Import Goose.Stopper Goose.StopperProofs Goose.StopperPos Goose.StopperPosProofs.
